@@ -16,6 +16,8 @@ class SymAPI(object):
         self._names = set()
         self._traph_mod = None
         self.events = []       # op-kind / oracle-branch labels reached (vacuity guard)
+        from symx.shims import fs_shim
+        fs_shim.FS.reset()     # no state may leak from one path to the next
 
     # -- inputs -----------------------------------------------------------------
     def _name(self, name):
@@ -123,6 +125,24 @@ class SymAPI(object):
 
     def fresh_folder(self, name="idx"):
         return "/symfs/%s" % name
+
+    @property
+    def struct(self):
+        from symx.shims import struct_shim
+        return struct_shim
+
+    def raw_store(self, t, which):
+        """whole content of a store ('trie' or 'links') as a byte string"""
+        st = t.lru_trie_storage if which == "trie" else t.links_store_storage
+        if hasattr(st, "array"):
+            return st.array[0:len(st.array)]
+        f = st.file
+        return SymBytes(tuple(f.fs.files[f.path]))
+
+    def module(self, name):
+        self.traph_module()
+        import importlib
+        return importlib.import_module(name)
 
     def Traph(self, **kw):
         return self.traph_module().Traph(**kw)
